@@ -1055,7 +1055,7 @@ def _check(ctx, pools):
     ctx.tlc("probe-psutil700-scale", r)
     shutil.rmtree(os.path.dirname(cfg), ignore_errors=True)
     if r.violated != "C07_SharesSum":
-        raise core.Machinery("vacuity: C07_SharesSum does not reject the max(1, seconds) scale of psutil 7.0.0")
+        core.vacuity("C07_SharesSum does not reject the max(1, seconds) scale of psutil 7.0.0")
 
     phase("probe")
     # (a) transition tours
@@ -1084,7 +1084,7 @@ def _check(ctx, pools):
 
     missing = [t for t in REQUIRED_TAGS if t not in tags]
     if missing:
-        raise core.Machinery("vacuity: input/result classes never exercised: %s" % missing)
+        core.vacuity("input/result classes never exercised: %s" % missing)
     ctx.cov["classes_exercised"] = sorted(tags)
 
 
